@@ -7,7 +7,7 @@ from lib import core
 from lib.core import cz, czl
 from harness import common, sess, smppref
 
-THEOREMS = ['C02_accepted_response_stores_original', 'C02_receipt_plain', 'C02_receipt_unknown', 'C02_segmented_receipts', 'C02_failing_receipt_wins', 'C02_nonvacuous']
+THEOREMS = ['C02_accepted_response_stores_original', 'C02_receipt_plain', 'C02_receipt_unknown', 'C02_segmented_receipts', 'C02_concurrent_receipts', 'C02_concurrent_nonvacuous', 'C02_failing_receipt_wins', 'C02_nonvacuous']
 IMPORTS = ['AV.Model.Base', 'AV.Model.PyDict', 'AV.Model.Limiter', 'AV.Model.Correlator', 'AV.Model.Seq', 'AV.Model.Handlers']
 
 
